@@ -26,7 +26,14 @@ def build_cases(tier, seed):
             prof["network"] = "grid"
         # low thresholds let the built-in dispatcher send nearly empty vehicles on trips they cannot finish
         ctrl = BUILTIN if i % 2 == 0 else hostile_stack(p=0.25, builtin=True, kinds=["DispatchTrip", "DispatchTrip", "Idle", "DispatchStation", "Reposition", "OutOfService", "ReserveBase", "DispatchBase"])
+        if i % 4 == 3:
+            # interruptions only: instructions of every other kind (many of them refused) reach vehicles on their way to a
+            # request, but trips are handed out by the built-in dispatcher alone, so "at most one vehicle per request" applies
+            ctrl = hostile_stack(p=0.3, builtin=True, kinds=["Idle", "DispatchStation", "ChargeStation", "ChargeBase", "Reposition", "ReserveBase", "ReserveBase", "DispatchBase"])
         opts = {}
+        if i % 8 == 2:
+            prof["fleets"] = [2, 3][(i // 8) % 2]
+            opts = {"cosim_ops": {"every": 3, "kinds": ["change_request_membership"]}}
         if i % 4 == 0:
             # a co-simulation client adds requests of no fleet between calls (built-in control: "at most one vehicle per request")
             prof["fleets"] = [2, 3][(i // 4) % 2]
@@ -45,11 +52,11 @@ main = main_with_sys(
     build_cases,
     "c17_assigned_requests",
     {
-        "quick": {"c17_assigned_requests": 3000, "c17_interrupted_dispatches": 200, "c17_out_of_energy_en_route": 10, "sys_transitions": 20000},
-        "thorough": {"c17_assigned_requests": 60000, "c17_interrupted_dispatches": 4000, "c17_out_of_energy_en_route": 200, "sys_transitions": 500000},
+        "quick": {"c17_assigned_requests": 3000, "c17_interrupted_dispatches": 200, "c17_out_of_energy_en_route": 10, "sys_transitions": 20000, "cosim_change_membership_of_assigned_request": 10, "c17_refused_instructions_en_route": 50},
+        "thorough": {"c17_assigned_requests": 60000, "c17_interrupted_dispatches": 4000, "c17_out_of_energy_en_route": 200, "sys_transitions": 500000, "cosim_change_membership_of_assigned_request": 100, "c17_refused_instructions_en_route": 500},
     },
-    "journeys started with too little energy (matching thresholds lowered so the built-in dispatcher sends nearly empty vehicles), hostile re-dispatch / interruption / OutOfService instructions, cancellations while en route; "
+    "journeys started with too little energy (matching thresholds lowered so the built-in dispatcher sends nearly empty vehicles), hostile re-dispatch / interruption / OutOfService instructions, cancellations while en route, interruption-only generators whose (mostly refused) instructions reach vehicles en route, a co-simulation client opening assigned requests to further fleets between calls; "
     "in every state each waiting request that records a vehicle must find it in DispatchTrip to that request (and under built-in control at most one vehicle per request); the systematic driver adds every instruction variant "
     "incl. a vehicle that runs dry within one step. non-trivial = at least one request with a recorded vehicle; distinct = case hash",
-    ["'at most one vehicle per request' is judged only in runs without a hostile generator"],
+    ["'at most one vehicle per request' is judged in runs where no generator other than the built-in dispatcher sends vehicles to requests (built-in stacks, and stacks whose extra generator only interrupts / redirects)"],
 )
